@@ -42,4 +42,6 @@ __CPROVER_ensures((__CPROVER_return_value == 0 && 0 <= h3v_g && h3v_g < h3v_g2 &
 /* every vertex of the cell is examined (5 for a pentagon, 6 for a hexagon), and the face of each examined vertex is reported */
 __CPROVER_ensures(__CPROVER_return_value == 0 ==> h3v_adj_calls == (S_IS_PENT(h3) ? 5 : 6))
 __CPROVER_ensures((__CPROVER_return_value == 0 && h3v_seen) ==> C19_HAS(out, C19_NSLOT(h3), h3v_wf));
+
+#include "faces.h"
 #endif
